@@ -19,6 +19,9 @@ PROCESSES = ("EM", "NC", "CC")
 PROJECTILES = {"electron": 11, "positron": -11, "neutrino": 12, "antineutrino": -12}
 SCHEMES = ("ZM-VFNS", "FFNS", "FFN0", "FONLL-FFNS", "FONLL-FFN0")
 SF_KINDS = ("F2", "FL", "F3", "g1", "gL", "g4")
+# parity-violating structure functions (PDG review: F3, and the polarised g4, gL = g5-type ones couple
+# through the VA/AV interference); spec constant -- NOT read from the code under verification
+PV_KINDS = ("F3", "gL", "g4")
 HEAVYNESS = ("light", "total", "charm", "bottom", "top", "charmlight", "bottomlight", "toplight")
 COUPLING_TYPES = ("VV", "AA", "VA", "AV")
 QUARK_NAMES = "duscbt"
@@ -444,3 +447,39 @@ def weights_frame(rep):
         else:
             detail = f"paths={len(paths)} exc={[repr(p_.exc) for p_ in paths][:2]}"
         rep.add(ob_eval(f"{rep.pid}/weights-frame/{name}/result depends on the coupling object of this call only; fresh dictionaries", ok, kind="frame", detail=detail, inputs={} if ok else {"sequence": "f(A), f(B), f(A) with A, B coupling objects of different contract values at the same (Q2, nf, ...)", "observed": detail}))
+
+
+def _scheme_families_worker(sub, c):
+    sy = Sy().numeric({"x": 0.01, "Q2": 5.0e4, "m2c": 2.0, "m2b": 20.0, "m2t": 3.0e4})
+    try:
+        cfg = cell_configs(sy, c)
+        ks, comb = collect(sy, cfg, c["kind"], c["flavor"], c["nf"])
+    except (NotImplementedError, ValueError):
+        sub.extra["cells_rejected"] = sub.extra.get("cells_rejected", 0) + 1
+        return
+    from pvc.core import ob_eval
+
+    sub.cases += 1
+    fams = sorted({type(k.coeff).__module__.split(".")[2] for k in ks})
+    scheme = c["scheme"]
+    if "FFN0" in scheme:
+        allowed = {"light", "asy"}
+    elif "FFNS" in scheme:
+        allowed = {"light", "heavy", "intrinsic"}
+    else:
+        allowed = {"light"}
+    bad = [f for f in fams if f not in allowed]
+    sub.add(ob_eval(f"{sub.pid}/scheme-dispatch/{cell_name(c)}/kernel families {sorted(allowed)} only", not bad, detail=f"families collected: {fams}", inputs={} if not bad else {"cell": cell_name(c), "families": str(fams), "offending classes": str(sorted({type(k.coeff).__module__.split('.', 2)[2] + '.' + type(k.coeff).__name__ for k in ks if type(k.coeff).__module__.split('.')[2] in bad})[:6])}))
+
+
+def scheme_families(rep, tier="quick"):
+    """Dispatch contract (docs/theory/fns.rst): massive calculations (FFNS, FONLL-FFNS) collect light,
+    heavy and heavy-quark-initiated kernels and never an asymptotic one; their high-virtuality
+    counterparts (FFN0, FONLL-FFN0) collect light and asymptotic kernels and never a massive one;
+    ZM-VFNS collects massless kernels only -- for every cell of the configuration lattice."""
+    from pvc.core import parallel
+    import yadism.coefficient_functions as cf
+
+    rep.under_contract(cf.Combiner.collect, cf.Combiner.heavy_components, cf.Combiner.light_component)
+    parallel(rep, list(lattice(tier)), _scheme_families_worker)
+
